@@ -86,7 +86,7 @@ def cases(run):
             samples = []
             for cid in (rng.randrange(len(chans)) for _ in range(k)):
                 for _try in range(20):
-                    s = su.gen_sample(rng, cid, chans[cid], user, allow_invalid_text=False)
+                    s = su.gen_sample(rng, cid, chans[cid], user, allow_invalid_text=False, ints_on_float=True)
                     if representable(s, chans[cid], user):
                         samples.append(s)
                         break
